@@ -841,3 +841,233 @@ Proof.
   intros H n. pose proof (run_VC orc _ _ _ (init_VC ds) H) as V.
   destruct (nth_error (nodes s) n) as [x|] eqn:E; auto. apply (V _ _ E).
 Qed.
+
+(* ------------------------------------------------------------------------------------------ *)
+(** * Part 5: stable enumeration order — no execution while the cone is untouched *)
+
+(* m transitively depends on k (reflexive): k is in the dependency cone of m *)
+Inductive reach (g : graph) : id -> id -> Prop :=
+| reach_refl a : reach g a a
+| reach_step a ins proc d b :
+    nth_error g a = Some (GStruct ins proc) -> In d (concat ins) -> reach g d b -> reach g a b.
+
+Lemma reach_trans g a b c : reach g a b -> reach g b c -> reach g a c.
+Proof. induction 1; auto. intros. eapply reach_step; eauto. Qed.
+
+Lemma reach_rank g rk a b : ranked g rk -> reach g a b -> rk b <= rk a.
+Proof. intros R. induction 1; auto. specialize (R _ _ _ _ H H0). lia. Qed.
+
+Lemma reach_agree g g' n :
+  (forall k, reach g n k -> nth_error g' k = nth_error g k) -> forall m, reach g' n m -> reach g n m.
+Proof.
+  intros H m Hr. induction Hr.
+  - constructor.
+  - assert (E : nth_error g a = Some (GStruct ins proc)) by (rewrite <- H; auto; constructor).
+    eapply reach_step; eauto. apply IHHr. intros k Hk. apply H. eapply reach_step; eauto.
+Qed.
+
+Definition clean (po : order) (st : store) (m : id) : Prop := exists f, stale po f st m = Some false.
+
+Lemma cmp_deps_agree s s' st st' L dv b :
+  (forall d, In d L -> ver_of st' d = ver_of st d /\ forall b, s d = Some b -> s' d = Some b) ->
+  cmp_deps s st L dv = Some b -> cmp_deps s' st' L dv = Some b.
+Proof.
+  revert dv; induction L as [|d r IH]; intros [|v vs] H E; simpl in *; auto.
+  destruct (H d (or_introl eq_refl)) as [Hv Hs]. rewrite Hv.
+  destruct (ver_of st d) as [w|]; simpl in *; [|discriminate].
+  destruct (negb (w =? v)); auto.
+  destruct (s d) as [sd|] eqn:Es; simpl in *; [|discriminate]. rewrite (Hs _ eq_refl). simpl.
+  destruct sd; auto.
+Qed.
+
+Lemma cmp_deps_false_all s st L dv : cmp_deps s st L dv = Some false -> forall d, In d L -> s d = Some false.
+Proof.
+  revert dv; induction L as [|d r IH]; intros [|v vs] H; simpl in *; try tauto; try discriminate.
+  inv_bind H. destruct (negb (a =? v)); [discriminate|]. inv_bind H. destruct a0; [discriminate|].
+  intros d' [<- | Hd]; eauto.
+Qed.
+
+Lemma cmp_deps_intro s st L vers :
+  map_opt (ver_of st) L = Some vers -> (forall d, In d L -> s d = Some false) ->
+  cmp_deps s st L vers = Some false.
+Proof.
+  revert vers; induction L as [|d r IH]; simpl; intros vers H Hs.
+  - auto.
+  - inv_bind H. inv_bind H. injection H as <-. rewrite E. simpl. rewrite Nat.eqb_refl. simpl.
+    rewrite Hs by auto. simpl. auto.
+Qed.
+
+Lemma stale_mono po f st n b : stale po f st n = Some b -> stale po (S f) st n = Some b.
+Proof.
+  revert n b; induction f; intros n b H; [discriminate|].
+  rewrite stale_S in H. rewrite stale_S. destruct (nth_error st n) as [[|sn]|]; auto.
+  destruct (sn_depvers sn); auto. destruct (sn_dirty sn); auto.
+  eapply cmp_deps_agree; [|exact H]. intros; split; auto.
+Qed.
+Lemma stale_le po f f' st n b : f <= f' -> stale po f st n = Some b -> stale po f' st n = Some b.
+Proof. induction 1; auto. intros. apply stale_mono; auto. Qed.
+Lemma stale_det po f1 f2 st n b1 b2 : stale po f1 st n = Some b1 -> stale po f2 st n = Some b2 -> b1 = b2.
+Proof.
+  intros H1 H2. apply (stale_le _ _ (Nat.max f1 f2)) in H1; [|lia].
+  apply (stale_le _ _ (Nat.max f1 f2)) in H2; [|lia]. congruence.
+Qed.
+
+Lemma perm_in_deps po n sn d : perm_ok po ->
+  In d (map snd (po Cmp n (raw_deps (sn_ports sn)))) <-> In d (deps_ids sn).
+Proof.
+  intros PO. rewrite <- map_snd_raw_deps_sn. split; apply Permutation_in.
+  - apply Permutation_map, PO.
+  - apply Permutation_sym, Permutation_map, PO.
+Qed.
+
+Lemma edge_reach st a sn d : nth_error st a = Some (Struct sn) -> In d (deps_ids sn) -> reach (graph_of st) a d.
+Proof.
+  intros En Hd. eapply reach_step; [rewrite graph_nth, En; reflexivity|exact Hd|constructor].
+Qed.
+
+(* Outdated() looks only at the cone *)
+Lemma agree_on_cone po : perm_ok po -> forall f st st' m b,
+  (forall k, reach (graph_of st) m k -> nth_error st' k = nth_error st k) ->
+  stale po f st m = Some b -> stale po f st' m = Some b.
+Proof.
+  intros PO. induction f; intros st st' m b H E; [discriminate|].
+  rewrite stale_S in E. rewrite stale_S. rewrite (H m (reach_refl _ _)).
+  destruct (nth_error st m) as [[|sn]|] eqn:En; auto.
+  destruct (sn_depvers sn); auto. destruct (sn_dirty sn); auto.
+  eapply cmp_deps_agree; [|exact E]. intros d Hd. apply (perm_in_deps po m sn d PO) in Hd.
+  pose proof (edge_reach _ _ _ _ En Hd) as Hr. split.
+  - unfold ver_of. rewrite H; auto.
+  - intros b'. apply IHf. intros k Hk. apply H. eapply reach_trans; eauto.
+Qed.
+
+Lemma clean_cone po : perm_ok po -> forall st m k,
+  reach (graph_of st) m k -> forall f, stale po f st m = Some false -> clean po st k.
+Proof.
+  intros PO st m k Hr. induction Hr as [a | a ins proc d b Ha Hd Hr IH]; intros f Hf.
+  - exists f; auto.
+  - destruct f; [discriminate|]. rewrite stale_S in Hf. rewrite graph_nth in Ha.
+    destruct (nth_error st a) as [[|sn]|] eqn:En; try discriminate. simpl in Ha. injection Ha as <- <-.
+    destruct (sn_depvers sn); [|discriminate]. destruct (sn_dirty sn); [discriminate|].
+    apply (IH f). eapply cmp_deps_false_all; [exact Hf|]. apply perm_in_deps; auto.
+Qed.
+
+Lemma keeps_clean_of_nth po st st' : perm_ok po ->
+  (forall m, clean po st m -> nth_error st' m = nth_error st m) ->
+  forall m, clean po st m -> clean po st' m.
+Proof.
+  intros PO H m [f Hf]. exists f. eapply agree_on_cone; [exact PO| |exact Hf].
+  intros k Hk. apply H. eapply clean_cone; eauto.
+Qed.
+
+(* a read never touches a node that is clean *)
+Definition Kc (po : order) (st st' : store) : Prop :=
+  forall m, clean po st m -> nth_error st' m = nth_error st m /\ clean po st' m.
+
+Lemma Kc_refl po st : Kc po st st.
+Proof. intros m H; auto. Qed.
+Lemma Kc_trans po a b c : Kc po a b -> Kc po b c -> Kc po a c.
+Proof. intros H1 H2 m Hm. destruct (H1 m Hm) as [E1 C1]. destruct (H2 m C1) as [E2 C2]. split; congruence. Qed.
+
+Lemma value_keeps po : perm_ok po -> forall f st r st' v, value po f st r = Some (st', v) -> Kc po st st'.
+Proof.
+  intros PO. induction f as [|f0 IH]; intros st r st' v H; [discriminate|].
+  destruct (value_inv _ _ _ _ _ _ H) as (f1 & Ef & Hc). injection Ef as <-.
+  destruct Hc as [(ver & sets & En & ->) | [(sn & En & Hs & -> & ->) | (sn & st1 & ins & vers & En & Hs & Hr & Hv & Ev & ->)]];
+    try apply Kc_refl.
+  destruct (read_ports_split (value po f0) (Kc po) (fun _ => True) (Kc_refl po) (Kc_trans po))
+    with (ps := ids_of sn) (st := st) (st1 := st1) (xss := ins) as [K1 _]; auto.
+  { intros; eapply IH; eauto. }
+  { apply Forall_nested_concat; auto. }
+  assert (N : forall m, clean po st m ->
+                        nth_error (set_nth r (Struct (exec_node sn v vers)) st1) m = nth_error st m).
+  { intros m Hm. destruct (K1 m Hm) as [E1 _]. rewrite nth_error_set_nth_neq; auto.
+    intros <-. destruct Hm as [f Hf]. pose proof (stale_det _ _ _ _ _ _ _ Hs Hf). discriminate. }
+  intros m Hm. split; auto. eapply keeps_clean_of_nth; eauto.
+Qed.
+
+(* order used when recording = order used when comparing, and it is a permutation *)
+Definition stable (po : order) : Prop := perm_ok po /\ forall n l, po Rec n l = po Cmp n l.
+
+Lemma execs_of_nth st st' n : nth_error st' n = nth_error st n -> execs_of st' n = execs_of st n.
+Proof. unfold execs_of. intros ->. auto. Qed.
+
+(* after a read, the node read and every node that executed during it are clean *)
+Section ExecClean.
+  Variable po : order.
+  Hypothesis ST : stable po.
+  Variable rk : id -> nat.
+  Let PO : perm_ok po := proj1 ST.
+
+  Definition Xc (st st' : store) : Prop := forall n, execs_of st' n <> execs_of st n -> clean po st' n.
+  Definition RX (K : nat) (st st' : store) : Prop :=
+    Kc po st st' /\ (Pre rk st -> Pre rk st' /\ Frame st st' /\ Local rk K st st' /\ Xc st st').
+
+  Lemma RX_refl K st : RX K st st.
+  Proof.
+    split; [apply Kc_refl|]. intros P. split; auto. split; [apply Frame_refl|].
+    split; [intros m _; auto|]. intros n H. congruence.
+  Qed.
+  Lemma RX_trans K a b c : RX K a b -> RX K b c -> RX K a c.
+  Proof.
+    intros (K1 & R1) (K2 & R2). split; [eapply Kc_trans; eauto|]. intros Pa.
+    destruct (R1 Pa) as (Pb & F1 & L1 & X1). destruct (R2 Pb) as (Pc & F2 & L2 & X2).
+    split; auto. split; [eapply Frame_trans; eauto|]. split; [intros m Hm; rewrite L2, L1; auto|].
+    intros n H. destruct (Nat.eq_dec (execs_of c n) (execs_of b n)) as [E|E].
+    - apply K2, X1. congruence.
+    - apply X2; auto.
+  Qed.
+
+  Lemma value_exec_clean : forall f st r st' v, Pre rk st -> value po f st r = Some (st', v) ->
+    clean po st' r /\ Xc st st'.
+  Proof.
+    induction f as [|f0 IH]; intros st r st' v HP H; [discriminate|].
+    destruct (value_inv _ _ _ _ _ _ H) as (f1 & Ef & Hc). injection Ef as <-.
+    destruct Hc as [(ver & sets & En & ->) | [(sn & En & Hs & -> & ->) | (sn & st1 & ins & vers & En & Hs & Hr & Hv & Ev & ->)]].
+    - split; [|intros n Hn; congruence]. exists 1. rewrite stale_S, En. auto.
+    - split; [|intros n Hn; congruence]. eexists; eauto.
+    - assert (Hrk : forall d, In d (concat (ids_of sn)) -> rk d < rk r).
+      { intros d Hd. eapply (proj2 HP); [|exact Hd]. rewrite graph_nth, En. reflexivity. }
+      destruct (read_ports_split (value po f0) (RX (rk r)) (fun d => rk d < rk r)
+                  (RX_refl _) (RX_trans _)) with (ps := ids_of sn) (st := st) (st1 := st1) (xss := ins)
+        as [R1 F1]; auto.
+      { intros s d s' x Hd Hval. split; [eapply value_keeps; eauto|].
+        intros Ps. destruct (value_spec po PO rk _ _ _ _ _ Ps Hval) as (_ & _ & P' & Fr & Lo).
+        split; auto. split; auto. split; [intros m Hm; apply Lo; lia|].
+        apply (IH _ _ _ _ Ps Hval). }
+      { apply Forall_nested_concat; auto. }
+      destruct R1 as [K1 R1]. destruct (R1 HP) as (P1 & Fr1 & Lo1 & X1).
+      assert (En1 : nth_error st1 r = Some (Struct sn)) by (rewrite Lo1; auto).
+      assert (Hlt : r < length st1) by (eapply nth_error_some_lt; eauto).
+      set (sn' := exec_node sn v vers) in *.
+      set (st' := set_nth r (Struct sn') st1).
+      assert (En' : nth_error st' r = Some (Struct sn')) by (apply nth_error_set_nth_eq; auto).
+      (* nodes below r that are clean at st1 stay clean when r's record is replaced *)
+      assert (A : forall m, clean po st1 m -> rk m < rk r -> clean po st' m).
+      { intros m [f Hf] Hm. exists f. eapply agree_on_cone; [exact PO| |exact Hf].
+        intros k Hk. unfold st'. apply nth_error_set_nth_neq. intros <-.
+        pose proof (reach_rank _ _ _ _ (proj2 P1) Hk). lia. }
+      assert (Dc : forall d, In d (deps_ids sn) -> clean po st' d).
+      { intros d Hd. apply A; [|apply Hrk; exact Hd].
+        destruct (Forall2_nested_in_l _ _ _ _ F1 Hd) as (x & sa & sb & Ra & Hval & Rb).
+        destruct Ra as [_ Ra]. destruct (Ra HP) as (Pa & _).
+        destruct (IH _ _ _ _ Pa Hval) as [Cd _]. destruct Rb as [Kb _]. apply Kb; auto. }
+      assert (Cr : clean po st' r).
+      { destruct (uniform_fuel (fun F d => stale po F st' d = Some false) (deps_ids sn)) as [F HF].
+        { intros; eapply stale_le; eauto. }
+        { intros d Hd. apply Dc; auto. }
+        exists (S F). rewrite stale_S, En'. simpl.
+        apply cmp_deps_intro.
+        - rewrite <- (proj2 ST). eapply map_opt_mono; [|exact Hv]. intros d w Hd Hw.
+          rewrite (proj2 ST) in Hd. apply (perm_in_deps po r sn d PO) in Hd.
+          unfold ver_of, st'. rewrite nth_error_set_nth_neq; auto.
+          intros <-. specialize (Hrk _ Hd). lia.
+        - intros d Hd. apply HF. apply (perm_in_deps po r sn d PO); auto. }
+      split; auto.
+      intros n Hn. destruct (Nat.eq_dec r n) as [<- | Hne]; auto.
+      assert (E' : execs_of st' n = execs_of st1 n).
+      { apply execs_of_nth. unfold st'. apply nth_error_set_nth_neq; auto. }
+      destruct (le_lt_dec (rk r) (rk n)) as [Hle | Hlt'].
+      + exfalso. apply Hn. rewrite E'. apply execs_of_nth. apply Lo1; auto.
+      + apply A; auto. apply X1. congruence.
+  Qed.
+End ExecClean.
